@@ -425,6 +425,30 @@ def run(ctx) -> None:
                       f'written to the default HDR.out in the package directory instead of the requested path (the client and the command line '
                       f'then find no report)', fact='self.output_file = output_file' if stores else 'forwarded to the parent')
     ctx.floor('N7', n7, 2, 'report writer constructors')
+    # ... and every writer that appends to `self.output_file` is constructed with the model's report path
+    mi_ = repo.method('Model', '__init__', 'geophires_x/Model.py')
+    n7b = 0
+    for st in ast.walk(mi_.node):
+        v = st.value if isinstance(st, (ast.Assign, ast.AnnAssign)) else None
+        if not (isinstance(v, ast.Call) and (dotted_name(v.func) or '').split('.')[-1].find('Outputs') >= 0):
+            continue
+        cname = (dotted_name(v.func) or '').split('.')[-1]
+        ci = repo.find_cls(cname, mi_.module)
+        po = repo.resolve_method(ci, 'PrintOutputs') if ci is not None else None
+        if po is None:
+            continue
+        uses_own = any(isinstance(x, ast.Attribute) and x.attr == 'output_file' and isinstance(x.value, ast.Name) and x.value.id == 'self'
+                       for x in ast.walk(po.node))
+        if not uses_own:
+            continue
+        n7b += 1
+        kw = next((k for k in v.keywords if k.arg == 'output_file'), None)
+        passed = kw is not None and isinstance(kw.value, ast.Name) and kw.value.id == 'output_file' or (len(v.args) >= 2 and norm(v.args[1]) == 'output_file')
+        ctx.check(passed, 'N7', f'Model.__init__/{cname}-gets-the-report-path', f'{mi_.module.rel}:{st.lineno}',
+                  f'{cname}.PrintOutputs writes to self.output_file, but Model.__init__ constructs it with `{norm(v)[:70]}`: it keeps the default '
+                  f'HDR.out in the package directory, so with an explicit report path (CLI argument, client) its section lands in another file '
+                  f'than the report', fact='output_file=output_file')
+    ctx.floor('N7', n7b, 2, 'writers that append to self.output_file')
     ctx.rule('N6', 'client dictionary requests are written to the input file with str(value): the same values give the same run as a file')
     from rules.client_common import check_lossless_rendering
     n6 = check_lossless_rendering(ctx, 'N6')
